@@ -19,6 +19,20 @@ from fractions import Fraction
 import numpy as np
 
 EPS = 1e-9
+
+
+def guard(fails, what, info, fn, *args, **kw):
+    """runs one unit of work (one grid / history / ray); an exception raised by the implementation - or by the harness
+    while digesting the implementation's answer - on a valid input becomes a recorded failing input and the run goes on"""
+    try:
+        return fn(*args, **kw)
+    except Exception as exc:      # noqa: BLE001 - every kind is an outcome here, none is swallowed silently
+        import traceback
+        tb = traceback.format_exc().strip().splitlines()
+        fails.append({"claim": "%s: no exception on a valid input (got %s)" % (what, type(exc).__name__),
+                      "key": "c10:exception:%s:%s" % (what[:40], type(exc).__name__),
+                      "error": "%s: %s" % (type(exc).__name__, exc), "where": tb[-3:], "input": info})
+        return None
 IN_GRID_CLASSES_SKIP = ("below-zero", "leaves-grid", "short")
 
 
@@ -67,9 +81,20 @@ def cyl_cell_py(g, x, y, z):
     if g["shape"][1] == 1:
         iphi = 0
     else:
-        phi = math.degrees(math.atan2(y, x)) % 360.0
-        iphi = min(int((phi % g["period"]) // g["dphi"]), g["shape"][1] - 1)
+        # the stated fold: the angle in (-180, 180] plus 360, taken modulo the period (a period that divides 360 only
+        # up to the accepted tolerance is folded the same way)
+        phi = (math.degrees(math.atan2(y, x)) + 360.0) % g["period"]
+        iphi = int(phi // g["dphi"])
+        if off_period(g):
+            return (ir, iphi, math.floor(z / g["dz"]))      # may be == nphi just below a full period: reported, not clamped
+        iphi = min(iphi, g["shape"][1] - 1)
     return (ir, iphi, math.floor(z / g["dz"]))
+
+
+def off_period(g):
+    """True when 360 / period is not an integer (only accepted within the 1e-3 tolerance of the emitter)"""
+    q = 360.0 / g["period"]
+    return abs(q - round(q)) > 1e-12
 
 
 def chords_cyl(g, s, e):
@@ -90,9 +115,19 @@ def chords_cyl(g, s, e):
                 sq = math.sqrt(disc)
                 cuts.update(l for l in ((-b - sq) / (2 * a), (-b + sq) / (2 * a)) if 0 < l < 1)
     if g["shape"][1] > 1:
-        nb = int(round(360.0 / g["dphi"]))
-        for j in range(nb):
-            th = math.radians(j * g["dphi"])
+        if off_period(g):
+            # borders of the folded sectors: angle + 360 = m * period + j * dphi, and the branch cut of atan2 at 180
+            angles = {180.0}
+            for m in range(int(540.0 / g["period"]) + 2):
+                for j in range(g["shape"][1]):
+                    a = m * g["period"] + j * g["dphi"] - 360.0
+                    if -180.0 <= a <= 180.0:
+                        angles.add(a)
+            angles = sorted(angles)
+        else:
+            angles = [j * g["dphi"] for j in range(int(round(360.0 / g["dphi"])))]
+        for ang in angles:
+            th = math.radians(ang)
             ux, uy = math.cos(th), math.sin(th)
             den = ux * d[1] - uy * d[0]
             if den != 0:
@@ -143,7 +178,8 @@ def check_segment(impl, g, c, stats, rng=None, periodic=True):
     # "cell" = geometric cell.  A grid with period < 360 is, per the property, the 360-degree grid whose voxel map
     # is the periodic tiling: chords and the one-source-per-cell run are taken on that 360-degree grid.
     geom, vm_geom = g, g["vm"]
-    if kind == "cyl" and g["period"] < 360:
+    offp = kind == "cyl" and off_period(g)
+    if kind == "cyl" and g["period"] < 360 and not offp:
         if "_g360" not in g:
             ns = int(round(360.0 / g["period"]))
             nr, nphi, nz = g["shape"]
@@ -188,11 +224,19 @@ def check_segment(impl, g, c, stats, rng=None, periodic=True):
     for cell, fr in seq:
         chord[flat(g, cell)] = chord.get(flat(g, cell), 0) + fr
     worst = None
+    # a folded cell of a grid whose period divides 360 only within the tolerance is the union of its periodic images: one
+    # integration step per interval in which the line meets it (at least the two of the property)
+    runs_of, prev_cell = {}, None
+    for cell, fr in seq:
+        if cell != prev_cell:
+            runs_of[flat(g, cell)] = runs_of.get(flat(g, cell), 0) + 1
+        prev_cell = cell
     for k in range(ncells if not degenerate else 0):
         ex = float(chord.get(k, 0) * Fraction(L)) if kind == "cart" else chord.get(k, 0.0) * L
         dev = abs(e_id[k] - ex)
         stats["cells_compared"] += 1
-        if dev > 2 * dt + EPS * L and (worst is None or dev > worst[0]):
+        allowed = 2 * dt if not offp else max(2, runs_of.get(k, 0)) * dt
+        if dev > allowed + EPS * L and (worst is None or dev > worst[0]):
             worst = (dev, k, e_id[k], ex)
     if worst:
         fails.append(dict(info, claim="each cell's entry differs from the exact chord length in that cell by at most two integration steps",
@@ -239,7 +283,7 @@ def check_segment(impl, g, c, stats, rng=None, periodic=True):
         fails.append(dict(info, claim="the entries sum to the length of the chord inside the active cells", sum=sum(e_vm),
                           chord_in_active_cells=act, active_runs=runs, dt=dt))
     # P5: periodic image
-    if kind == "cyl" and periodic and g["period"] < 360 and c.get("class", "") in ("generic", "outside-hole", "traced", "other-period"):
+    if kind == "cyl" and periodic and g["period"] < 360 and not offp and c.get("class", "") in ("generic", "outside-hole", "traced", "other-period"):
         from raysect.optical import rotate_z
         ns = int(round(360.0 / g["period"]))
         k = 1 + (rng.randrange(ns - 1) if (rng is not None and ns > 2) else 0)
